@@ -20,8 +20,8 @@ SCHEMAS = ["rec_defaults4", "rec_defaults5", "rec_defaults6", "rec_defaults7", "
            "rec_empty", "rec_floats", "rec_defaults", "rec_defaults2", "pair_array_int", "pair_array_record", "pair_map_long",
            "pair_map_record", "pair_array_union", "pair_map_union", "pair_field_union", "pair_field_map", "pair_field_array",
            "union_prims", "union_two_recs", "union_named_mix", "union_arr_map", "chain_arr_arr", "chain_rec_union_rec_arr",
-           "ref_after_def", "ns_inherit", "ns_dotted", "rec_list", "rec_tree", "rec_mutual", "map_key_is_field", "err_type"]
-QUICK = ["prim_int", "prim_bytes", "enum", "fixed", "rec_flat", "rec_empty", "rec_defaults", "rec_defaults4", "rec_defaults5", "rec_defaults6", "rec_defaults7", "rec_dictnull", "pair_array_record", "pair_map_long",
+           "ref_after_def", "ns_inherit", "ns_dotted", "rec_list", "rec_tree", "rec_mutual", "map_key_is_field", "err_type", "err_nested"]
+QUICK = ["err_type", "err_nested", "prim_int", "prim_bytes", "enum", "fixed", "rec_flat", "rec_empty", "rec_defaults", "rec_defaults4", "rec_defaults5", "rec_defaults6", "rec_defaults7", "rec_dictnull", "pair_array_record", "pair_map_long",
          "pair_field_union", "union_two_recs", "union_named_mix", "ref_after_def", "ns_inherit", "rec_list", "rec_tree",
          "map_key_is_field", "pair_map_union"]
 
